@@ -70,7 +70,17 @@ static void reb_simulation_add_local(struct reb_simulation* const r, struct reb_
             reb_simulation_error(r,"Cannot add particle outside of simulation box.");
             return;
         }
+#ifndef MPI
+		r->particles[r->N].c = NULL;
+#endif // MPI
 		reb_tree_add_particle_to_tree(r, r->N);
+#ifndef MPI
+		if (r->particles[r->N].c == NULL){
+			// The tree refused the particle (an error has been reported).
+			// Do not keep a particle in the array that is not in the tree.
+			return;
+		}
+#endif // MPI
 	}
 	(r->N)++;
     if (r->integrator == REB_INTEGRATOR_BS){
